@@ -18,10 +18,19 @@ from .cursor import Column
 
 def uniquify(iterable):
     seen = set()
+    # Rows containing values that are not hashable, like dictionaries
+    # or lists, cannot be stored in a set: compare them one by one.
+    unhashable = []
     for obj in iterable:
-        if obj not in seen:
+        try:
+            if obj in seen:
+                continue
             seen.add(obj)
-            yield obj
+        except TypeError:
+            if obj in unhashable:
+                continue
+            unhashable.append(obj)
+        yield obj
 
 
 def execute_print(c_print, file):
